@@ -59,12 +59,13 @@ AttrShape(s) == IF s \in {"E2", "S2"} THEN <<Sg("SEQ", <<IF s = "E2" THEN 300 EL
 
 AttrRoutes(loc, t) ==
   {Route(Peer(s, loc), NhForm(k), TRUE, AttrShape(s), IF lp = -1 THEN 2 ELSE 0, lp, med, rr[1], rr[2], unk, <<7, 8>>) :
-     s \in AttrSources(loc, t), k \in 1..5, lp \in {-1, 200}, med \in {-1, 50},
+     s \in AttrSources(loc, t), k \in 1..6, lp \in {-1, 200}, med \in {-1, 50},
      rr \in RrVariants, unk \in UnkVariants}
 
 AttrPool ==
   UNION {UNION {{Exp(loc, t, r) : r \in {x \in AttrRoutes(loc, t) :
-                                          (x.nha = "0.0.0.0" \/ x.nhm = "::") => x.src.id = "L"}}
+                                          /\ ((x.nha = "0.0.0.0" \/ x.nhm = "::") => x.src.id = "L")
+                                          /\ (x.nhl # "none" => x.src.id # "L")}}
                 : t \in AttrTargets(loc)} : loc \in {LPlain, LPlainX, LConfed}}
   (* own routes without an AS_PATH attribute (the exporter has to supply the mandatory one) *)
   \cup {Exp(LPlain, Peer(x, LPlain),
